@@ -20,7 +20,14 @@ Tie (correspondence, every run, on fpy2 from $FPY_REPO):
  C. every (program, aimable strategy, index j in -1..k+1): `sites` lists k
     sites, index j<k rewrites the j-th listed and only it, other indices are
     rejected, `None` rewrites all, sites and refusals are disjoint and account
-    for every candidate; the walk agrees with the model of `SiteRewriter`.
+    for every candidate; the walk agrees with the model of `SiteRewriter`;
+ D. user rewrite rules (fpy2.rewrite.Rewrite / find_all) on generated programs:
+    the whole occurrence-index domain (-k-2 .. k+2, 10k+7, None) - index j<k
+    rewrites the j-th listed match only, every other index is a reference
+    error (never another exception, never a silent rewrite), cursor j = index
+    j; replacement patterns that repeat a variable, followed by an
+    expression-sited rewrite aimed at ONE of the copies; and, for every
+    produced program of parts B-D, no AST node sits at two program points.
 """
 import importlib
 import re
@@ -860,6 +867,31 @@ def at_or_beneath(sp, loc):
     return True
 
 
+def shared_nodes(im, ast):
+    """Statement / expression objects reachable at more than one program point (a program is a tree:
+    a node held twice makes a later rewrite of one place change the other)."""
+    seen, dup = {}, []
+    for _, s in im.P.walk_stmts(ast):
+        if id(s) in seen:
+            dup.append(s)
+        seen[id(s)] = s
+    for _, e in im.P.walk_exprs(ast):
+        if id(e) in seen:
+            dup.append(e)
+        seen[id(e)] = e
+    return dup
+
+
+def check_tree(ck, im, f_res, tag, f_src=None, key=None):
+    dup = shared_nodes(im, f_res.ast)
+    ck.evaluations += 1
+    if dup:
+        ck.violation(f'{tag.split("[")[0]}: the produced program holds one AST node at several program points',
+                     {'what': tag, 'program': None if f_src is None else f_src.format(), 'result': f_res.format(),
+                      'shared': [type(d).__name__ + ': ' + d.format().splitlines()[0] for d in dup[:6]]}, key=key)
+    return not dup
+
+
 def log_case(ck, im, f_src, f_res, intern, tag, cases, key=None, expr_queries=True):
     """One reported log of a real pass as a CLog case: model `apply` of the
     reported edits must reproduce the produced tree, and every statement
@@ -867,6 +899,7 @@ def log_case(ck, im, f_src, f_res, intern, tag, cases, key=None, expr_queries=Tr
     C = im.C
     log = f_res.edits
     src, res = f_src.ast, f_res.ast
+    check_tree(ck, im, f_res, tag, f_src, key)
     edits_n = [(im.un_bpath(e.block_path), e.index, e.removed, e.inserted) for e in log.edits]
     dirty = [im.un_spath(sp) for sp in log.exprs_rewritten]
     pres = bool(log.exprs_preserved)
@@ -1242,6 +1275,237 @@ def part_bc(ck, im, rng, cases, n_progs, n_seqs):
                       tag + ' (Function.forward along the chain)\n' + '\n---\n'.join(g.format() for g in chain), None))
 
 
+PATTERNS = """
+@fp.pattern
+def dbl_l(a):
+    y = a * 2
+
+
+@fp.pattern
+def dbl_r(a):
+    y = a + a
+
+
+@fp.pattern
+def tri_l(a):
+    a * 3
+
+
+@fp.pattern
+def tri_r(a):
+    (a + a) + a
+
+
+@fp.pattern
+def neg_l(b):
+    -b
+
+
+@fp.pattern
+def neg_r(b):
+    0 - b
+
+
+@fp.pattern
+def fma_l(a, b, c):
+    a * b + c
+
+
+@fp.pattern
+def fma_r(a, b, c):
+    fp.fma(a, b, c)
+
+
+@fp.pattern
+def bump_l(a):
+    y = a + 1
+
+
+@fp.pattern
+def bump_r(a):
+    y = a + 2
+
+
+@fp.pattern
+def pair_l(a, b):
+    y = a + 1
+    u = b
+
+
+@fp.pattern
+def pair_r(a, b):
+    u = b
+    y = a + 2
+    y = y + a
+"""
+
+
+def rule_program(rng, name, gen):
+    """A program for the user-rewrite rules: every statement is textually distinct (fresh constants), and a
+    statement holds at most one match of each left-hand side."""
+    def operand():
+        c = gen.const()
+        return rng.choice([f'g1(x + {c})', f'(-(z + {c}))', f'g2(z - {c})', f'(x + {c})', f'-x'])
+
+    def stmt(pad, depth):
+        k = rng.choice(['dbl', 'dbl', 'tri', 'fma', 'bump', 'bump-use', 'plain'] + (['if', 'for'] if depth > 0 else []))
+        if k == 'dbl':
+            return [f'{pad}y = {operand()} * 2']
+        if k == 'tri':
+            return [f'{pad}u = ({operand()} + y) * 3']
+        if k == 'fma':
+            return [f'{pad}v = {operand()} * x + {gen.const()}']
+        if k == 'bump':
+            return [f'{pad}y = {operand()} + 1']
+        if k == 'bump-use':
+            return [f'{pad}y = {operand()} + 1', f'{pad}u = v - {gen.const()}']
+        if k == 'plain':
+            return [f'{pad}v = u - y - {gen.const()}']
+        if k == 'if':
+            return [f'{pad}if z > {gen.const()}:'] + stmt(pad + '    ', depth - 1) + stmt(pad + '    ', depth - 1)
+        return [f'{pad}for e{gen.const()} in xs:'] + stmt(pad + '    ', depth - 1)
+    body = []
+    for _ in range(rng.randint(3, 6)):
+        body += stmt('    ', 1)
+    return '\n'.join(['@fp.fpy', f'def {name}(xs: list[fp.Real], x: fp.Real, z: fp.Real) -> fp.Real:',
+                      '    y = 0.0', '    u = 0.0', '    v = 0.0'] + body + ['    return y - u - v']) + '\n'
+
+
+def part_d(ck, im, rng, cases, n_progs):
+    """User rewrite rules (fpy2.rewrite): the whole occurrence-index domain, replacement patterns that
+    repeat a variable, and what a later expression-sited rewrite does to the copies."""
+    import fpy2 as fp  # noqa: F401
+    from fpy2 import strategies as S
+    from fpy2.rewrite import Rewrite, find_all
+    C, P = im.C, im.P
+    gen = ProgGen(rng)
+    names = [f'd{k}' for k in range(n_progs)]
+    mod = im.load([rule_program(rng, nm, gen) for nm in names], prelude=HELPERS + PATTERNS)
+    rules = [(nm, Rewrite(getattr(mod, nm + '_l'), getattr(mod, nm + '_r'), name=nm))
+             for nm in ('dbl', 'tri', 'neg', 'fma', 'bump', 'pair')]
+
+    def stmt_of(cur):
+        if isinstance(cur, C.ExprCursor):
+            return im.un_spath(cur.path.stmt())
+        if isinstance(cur, C.BlockCursor):
+            return (im.un_bpath(cur.block_path), cur.span.start)
+        return im.un_spath(cur.path)
+
+    def attempt(fn, rep, what):
+        """Run a rewrite; a failure outside the TransformError hierarchy is a violation."""
+        try:
+            return fn()
+        except im.RefError:
+            return 'RefErr'
+        except im.TransformError as ex_:
+            return 'Declined:' + str(ex_)[:80]
+        except Exception as ex_:  # noqa: BLE001
+            ck.violation(f'D:{what}: a rewrite failed outside the TransformError hierarchy',
+                         dict(rep, error=f'{type(ex_).__name__}: {ex_}'))
+            return 'Crash'
+
+    for nm in names:
+        f = getattr(mod, nm)
+        for rname, rule in rules:
+            M = find_all(rule.lhs, f)
+            k = len(M)
+            ck.count('D:(program,rule)')
+            ck.count('D:listed-matches', k)
+            locs = [stmt_of(c) for c in M]
+            overlapping = any(isinstance(c, C.BlockCursor) and len(c) > 1 for c in M) and len(set(
+                (l[0], i) for c, l in zip(M, locs) for i in (range(l[1], l[1] + len(c)) if isinstance(c, C.BlockCursor) else [l[1]]))) < sum(
+                    (len(c) if isinstance(c, C.BlockCursor) else 1) for c in M)
+            distinct = len(set(locs)) == k and not overlapping
+            src_text = {sp: s.format() for sp, s in ((im.un_spath(q), s) for q, s in P.walk_stmts(f.ast))}
+
+            def rewritten(out):
+                """Listed matches whose statement (or window) no longer stands as it was."""
+                if isinstance(M[0], C.ExprCursor):
+                    # an expression rule keeps every statement in place
+                    now = {im.un_spath(q): s.format() for q, s in P.walk_stmts(out.ast)}
+                    return [i for i, l in enumerate(locs) if now.get(l) != src_text[l]]
+                at = [(im.un_bpath(e.block_path), e.index) for e in out.edits.edits]
+                return [i for i, l in enumerate(locs) if l in at]
+
+            domain = [None] + list(range(-k - 2, k + 3)) + [10 * k + 7]
+            for j in domain:
+                ck.evaluations += 1
+                rep = {'program': f.format(), 'rule': rname, 'where': j, 'matches': [str(c).split(' at')[0] for c in M]}
+                out = attempt(lambda: rule.apply(f, j), rep, rname)
+                if out == 'Crash':
+                    continue
+                ck.count('D:index-' + ('none' if j is None else 'in-range' if 0 <= j < k else 'out-of-range'))
+                if k == 0 or (j is not None and not 0 <= j < k):
+                    # nothing to name: rejected, never a silent rewrite of some other match
+                    if out != 'RefErr':
+                        ck.violation(f'D:{rname}: an index outside the listed matches (or a rule that matches nothing) was accepted',
+                                     dict(rep, outcome=out if isinstance(out, str) else out.format()))
+                    o = 'Err RefErr'
+                elif isinstance(out, str):
+                    if out.startswith('Declined') and overlapping:
+                        ck.count('D:overlapping-windows-declined')
+                        continue
+                    ck.violation(f'D:{rname}: a listed match index (or None) was rejected', dict(rep, outcome=out))
+                    o = 'Err RefErr'
+                else:
+                    check_tree(ck, im, out, f'D:{rname}[where={j}]', f)
+                    got = rewritten(out) if distinct else None
+                    if got is not None:
+                        want = list(range(k)) if j is None else [j]
+                        ck.nontriv(('D', rname, nm, j))
+                        if got != want:
+                            ck.violation(f'D:{rname}: index j did not rewrite exactly the j-th listed match (None: all)',
+                                         dict(rep, rewritten=got, result=out.format()))
+                        o = f'Ok {c_zlist(got)}'
+                    else:
+                        o = None
+                    log_case(ck, im, f, out, Interner(), f'D:{rname}[where={j}]', cases, expr_queries=False)
+                if k > 0 and o is not None:
+                    cases.append((f'CSites [{"; ".join(["false"] * k)}] {c_opt(j, cz)} ({o})',
+                                  f'D:{rname}[where={j}] vs the model of the site walk\n' + f.format(), None))
+            # aimed by the listed cursor = aimed by its index
+            for j, cur in enumerate(M):
+                a = attempt(lambda: rule.apply(f, j), {'program': f.format(), 'rule': rname, 'where': j}, rname)
+                b = attempt(lambda: rule.apply(f, cur), {'program': f.format(), 'rule': rname, 'where': str(cur)}, rname)
+                ck.evaluations += 1
+                if isinstance(cur, C.ExprCursor) and not isinstance(a, str) and (isinstance(b, str) or a.format() != b.format()):
+                    ck.violation(f'D:{rname}: aiming at listed match j by cursor differs from aiming by index j',
+                                 {'program': f.format(), 'where': j, 'by_index': a.format(), 'by_cursor': b if isinstance(b, str) else b.format()})
+
+        # ---- a later expression-sited rewrite on the copies a repeated pattern variable made
+        for rname, rule in rules[:2]:
+            doubled = attempt(lambda: rule.apply(f), {'program': f.format(), 'rule': rname}, rname)
+            if isinstance(doubled, str):
+                continue
+            for lname, later in (('inline', None), ('neg', rules[2][1])):
+                if later is None:
+                    listed = attempt(lambda: S.sites(S.inline, doubled), {'program': doubled.format()}, 'sites(inline)')
+                else:
+                    listed = find_all(later.lhs, doubled)
+                if isinstance(listed, str):
+                    continue
+                k = len(listed)
+                for j, cur in enumerate(listed):
+                    ck.evaluations += 1
+                    rep = {'program': doubled.format(), 'after': rname, 'then': lname, 'where': j, 'listed': [str(c).split(' at')[0] for c in listed]}
+                    for how, aim in (('index', j), ('cursor', cur)):
+                        if later is None:
+                            once = attempt(lambda: S.inline(doubled, aim), rep, 'inline')
+                            left = None if isinstance(once, str) else len(S.sites(S.inline, once))
+                        else:
+                            once = attempt(lambda: later.apply(doubled, aim), rep, lname)
+                            left = None if isinstance(once, str) else len(find_all(later.lhs, once)) if find_all(later.lhs, once) is not None else 0
+                        if isinstance(once, str):
+                            if once != 'Crash':
+                                ck.violation(f'D:{lname} after {rname}: a listed site aimed at by {how} was rejected', dict(rep, outcome=once))
+                            continue
+                        ck.nontriv(('D2', nm, rname, lname, j, how))
+                        if left != k - 1:
+                            ck.violation(f'D:{lname} after {rname}: aiming at ONE listed site (by {how}) did not rewrite exactly one',
+                                         dict(rep, sites_before=k, sites_left=left, result=once.format()))
+                        check_tree(ck, im, once, f'D:{lname} after {rname}', doubled)
+
+
 def coq_eval(ck, cases, check_fn, case_type, tag, shard=600, block=50, jobs=12, timeout=1200):
     """`check_fn case = true` decided in Coq for every case; returns the failing
     indices.  Like Check.coq_eval_mismatches, but with binary (N) indices (a
@@ -1302,9 +1566,11 @@ def run(ck):
     rng = Rng(ck.seed, 'c19')
     cases = []
     import os
-    parts = os.environ.get('C19_PARTS', 'ABC')
+    parts = os.environ.get('C19_PARTS', 'ABCD')
     if 'A' in parts:
         part_a(ck, im, rng, cases, 400 if thorough else 90)
+    if 'D' in parts:
+        part_d(ck, im, Rng(ck.seed, 'c19-d'), cases, 40 if thorough else 10)
     if 'B' in parts or 'C' in parts:
         part_bc(ck, im, Rng(ck.seed, 'c19-bc'), cases, 60 if thorough else 14, 400 if thorough else 80)
 
